@@ -17,7 +17,7 @@ class C14(conncheck.ConnCheck):
         'Ping payload menu: empty, 1 byte, 125 bytes 00..7c, 125 bytes 83..ff, two in one read; arbitrary payload bytes are covered by C01/C03',
         'a failed Pong write is injected as OSError(EPIPE) on exactly that sendall; later writes succeed again',
     ]
-    kinds = ('wire-pong', 'wire-other', 'wire-close', 'events-differ', 'unexpected-event', 'events-missing', 'exception-escaped',
+    kinds = ('self-disconnect', 'wire-pong', 'wire-other', 'wire-close', 'events-differ', 'unexpected-event', 'events-missing', 'exception-escaped',
              'wire-invalid-frame', 'wire-garbage')
     expect_sites = ('pong', 'pong-suppressed', 'pong-write-fault', 'app:send_text@ping', 'app:close@ping', 'srv:ping-125',
                     'srv:ping-ping', 'srv:ping-then-bad', 'srv:hs-deflate', 'no-autopong')
